@@ -262,3 +262,6 @@ def run(chk, facts, tier):
     residual_hom.check_substitute(chk, facts)
     from rules import c13_shortcircuit
     c13_shortcircuit.check(chk, facts)
+    c13_shortcircuit.residual_guard_kept(chk, facts)
+    c13_shortcircuit.store_mode_kept(chk, facts)
+    c13_shortcircuit.residual_sticky(chk, facts)
